@@ -116,6 +116,9 @@ def check(ctx):
     joint_assessment(ctx, repo)
     announced(ctx, repo, itf)
     narrowing(ctx, repo)
+    from ._typing import input_type_gate
+
+    input_type_gate(ctx, repo, "F6")
 
 
 def must_call(ctx, repo, itf):
@@ -175,6 +178,7 @@ def must_call(ctx, repo, itf):
     ctx.floor("F1", 6)
 
 
+NAN_DROPPING = ("nunique", "value_counts", "count")
 TOLERANT = ("isclose", "allclose", "approx", "assert_almost_equal", "round", "around", "rint")
 
 
@@ -187,9 +191,15 @@ def exact_comparisons(ctx, repo, itf, rid="F5"):
         if fd is None:
             continue
         bad = [n for n in ast.walk(fd) if isinstance(n, ast.Call) and ((isinstance(n.func, ast.Attribute) and n.func.attr in TOLERANT) or (isinstance(n.func, ast.Name) and n.func.id in TOLERANT))]
-        ctx.ob(rid, ok=not bad, distinct=name)
+        # statistics that silently skip missing values decide nothing about a column that has them
+        nanblind = [n for n in ast.walk(fd) if isinstance(n, ast.Call) and isinstance(n.func, ast.Attribute) and (
+            (n.func.attr in NAN_DROPPING and not any(kw.arg == "dropna" and isinstance(kw.value, ast.Constant) and kw.value.value is False for kw in n.keywords))
+            or n.func.attr == "dropna")]
+        ctx.ob(rid, ok=not bad and not nanblind, distinct=name)
         for n in bad:
             ctx.violation(rid, f"{name}|{ast.unparse(n.func)}", mod.loc(n) + f" {name}", f"`{ast.unparse(n)[:80]}` accepts input that differs from what it is checked against by a tolerance: values that are not constant within a group / not integral are let through and changed")
+        for n in nanblind:
+            ctx.violation(rid, f"{name}|{ast.unparse(n.func)}", mod.loc(n) + f" {name}", f"`{ast.unparse(n)[:80]}` leaves missing values out of the comparison: a group holding a value for one member and NaN for another passes the check although the column is not constant within the group")
 
 
 def validators(ctx, repo, itf):
